@@ -1,8 +1,14 @@
 //! compatible with std::sync::condvar except for both thread and coroutine
 //! please ref the doc from std::sync::condvar
+#[cfg(not(may_verif))]
 use crossbeam::queue::SegQueue;
+#[cfg(may_verif)]
+use crate::verif::SegQueue;
 
+#[cfg(not(may_verif))]
 use std::sync::atomic::{AtomicUsize, Ordering};
+#[cfg(may_verif)]
+use crate::verif::atomic::{AtomicUsize, Ordering};
 use std::sync::Arc;
 use std::sync::{LockResult, PoisonError};
 use std::time::Duration;
